@@ -50,6 +50,15 @@ def make_target():
     import Pyro5.api as P
 
     class Source(object):
+        def __init__(self):
+            self.handed_out = []          # the object keeps what it has handed out (to report progress, say)
+
+        @P.expose
+        def boom(self):
+            streams = list(self.handed_out)     # (they are in reach of whatever looks at this frame)
+            newest = streams[-1] if streams else None
+            raise ValueError("another method of the object fails; it knows of %d streams, the newest is %s" % (len(streams), type(newest).__name__))
+
         @P.expose
         def gen(self, i, n, raise_at):
             def g():
@@ -59,7 +68,10 @@ def make_target():
                     yield i * 100 + j
                 if raise_at == n + 1:
                     raise ValueError("generator failed at the end")
-            return g()
+            it = g()
+            self.handed_out = self.handed_out[-5:] + [it]
+            self.newest = it
+            return it
 
         @P.expose
         def slowgen(self, i, n, gate):
@@ -73,7 +85,10 @@ def make_target():
 
         @P.expose
         def lst(self, i, n):
-            return iter([i * 100 + j for j in range(1, n + 1)])
+            it = iter([i * 100 + j for j in range(1, n + 1)])
+            self.handed_out = self.handed_out[-5:] + [it]
+            self.newest = it
+            return it
 
         @P.expose
         def ping(self):
@@ -93,6 +108,7 @@ def run_scripts(scripts, servertype, settings, unit=1):
     config.ITER_STREAMING = streaming
     config.ITER_STREAM_LIFETIME = float(lifetime)
     config.ITER_STREAM_LINGER = float(linger)
+    config.DETAILED_TRACEBACK = bool(linger)       # (with some of the settings error replies carry detailed tracebacks)
     traces = []
     implicit_hk = servertype == "multiplex"
 
@@ -168,6 +184,18 @@ def run_scripts(scripts, servertype, settings, unit=1):
                             it, ok = None, False
                         its[i] = [it, p, not ok]
                         tr.append({"e": "Open", "i": i, "c": conn[p], "len": src["len"], "raiseAt": src["raiseAt"], "now": now(), "ok": ok})
+                        hk()
+                    elif a == "fail":
+                        p = step["p"]
+                        if broken.get(p):
+                            disconnect(p)
+                        connect(p)
+                        try:
+                            proxies[p].boom()
+                        except (S.Hang, S.SchedAbort):
+                            raise
+                        except Exception:
+                            pass
                         hk()
                     elif a == "break":
                         p = step["p"]
@@ -303,6 +331,7 @@ def run_scripts(scripts, servertype, settings, unit=1):
         drv.shutdown()
         d.close()
     memnet.run(main, max_steps=50000000)
+    config.DETAILED_TRACEBACK = False
     if len(traces) < len(scripts):
         raise util.MachineryError("session ended early (%d of %d)" % (len(traces), len(scripts)))
     return traces
